@@ -14,6 +14,11 @@ HistSim::HistSim(const Options& o, Transcript* t, bool real)
   for (int d = 0; d < o.ndocs; d++) {
     allocs_.emplace_back(new SimAllocator(o.instBase + d, t));
     allocs_.back()->moveOnRealloc = o.moveRealloc;
+    if (o.bernDen) {
+      allocs_.back()->faults.bernoulliNum = 1;
+      allocs_.back()->faults.bernoulliDen = o.bernDen;
+      allocs_.back()->faults.rng = Rng(mix64(o.bernSeed + uint64_t(d)));
+    }
   }
   for (int d = 0; d < o.ndocs; d++) {
     auto& ds = docs_[size_t(d)];
